@@ -6,6 +6,7 @@ every string its length, its list of code points and its UTF-8 bytes; the model 
 Python list of code points per string.  Plus the exhaustive sweep of every scalar value
 through char -> string -> utf8 -> string -> char against Python's UTF-8 encoder.
 """
+import os
 import random
 import re
 
@@ -330,6 +331,74 @@ def sweep_block(d, lo, hi):
     return None
 
 
+# ---------------------------------------------------------------------------
+# text read back from file and descriptor ports: multi-byte characters straddling the ports' buffer boundaries
+
+_FDRV = {}
+
+
+def file_driver(variant):
+    if variant not in _FDRV:
+        _FDRV[variant] = Driver(variant, imports=["(scheme base)", "(scheme write)", "(scheme file)", "(chibi filesystem)"])
+    return _FDRV[variant]
+
+
+def port_chunk_program(case):
+    cps = " ".join(str(c) for c in case["chars"])
+    return """(define path "%(path)s")
+(define s (string-append (make-string %(pre)d #\\a) (list->string (map integer->char '(%(cps)s))) (make-string %(post)d #\\z)))
+(call-with-output-file path (lambda (o) (write-string s o)))
+(define (first-diff a b) (let lp ((i 0)) (cond ((and (= i (string-length a)) (= i (string-length b))) #t) ((or (= i (string-length a)) (= i (string-length b))) (list 'length (string-length a) (string-length b))) ((eqv? (string-ref a i) (string-ref b i)) (lp (+ i 1))) (else (list 'index i (char->integer (string-ref a i)) (char->integer (string-ref b i)))))))
+(define (slurp-peek p) (let lp ((acc '())) (let ((c (peek-char p))) (if (eof-object? c) (begin (close-port p) (list->string (reverse acc))) (let ((d (read-char p))) (lp (cons (if (eqv? c d) d #\\!) acc)))))))
+(define (slurp-read p) (let lp ((acc '())) (let ((c (read-char p))) (if (eof-object? c) (begin (close-port p) (list->string (reverse acc))) (lp (cons c acc))))))
+(define (slurp-string p n) (let lp ((acc '())) (let ((c (read-string n p))) (if (eof-object? c) (begin (close-port p) (apply string-append (reverse acc))) (lp (cons c acc))))))
+(define (try thunk) (guard (e (#t (list 'error (if (error-object? e) (error-object-message e) e)))) (first-diff (thunk) s)))
+(write (list (try (lambda () (slurp-peek (open-input-file path))))
+             (try (lambda () (slurp-read (open-input-file path))))
+             (try (lambda () (slurp-string (open-input-file path) %(n)d)))
+             (try (lambda () (slurp-peek (open-input-file-descriptor (open path open/read)))))
+             (try (lambda () (slurp-string (open-input-file-descriptor (open path open/read)) %(n)d)))
+             %(readline)s))
+(newline)
+(delete-file path)
+""" % {"path": case["path"], "pre": case["pre"], "cps": cps, "post": case["post"], "n": case["n"],
+       # read-line may stop at its documented limit (8192), but what it returns is a prefix of the line made of whole characters
+       "readline": ("(guard (e (#t (list 'error (if (error-object? e) (error-object-message e) e)))) (let* ((l (read-line (open-input-file path))) (k (string-length l))) "
+                    "(if (and (<= k (string-length s)) (or (= k (string-length s)) (>= k 2000)) (string=? l (substring s 0 k))) #t (list 'read-line-not-a-prefix k))))")
+                   if case.get("readline", True) else "#t"}
+
+
+def check_port_chunk(case, variant):
+    prog = port_chunk_program(case)
+    r = file_driver(variant).run(prog, cpu=30, poison=1 if variant == "asan" else 0)
+    try:
+        os.unlink(case["path"])
+    except OSError:
+        pass
+    if r.status in ("cpu", "wall"):
+        return None, "inconclusive"
+    if r.status != "ok":
+        return E.Found("crash/port-chunk", "%s %s\n%s" % (r.status, r.err[-800:], prog)), "ok"
+    if r.body.strip() != "(#t #t #t #t #t #t)":
+        return E.Found("port-chunk/text-read-back-differs", "text of %d + %d + %d characters (code points %r in the middle) written to a file and read back: %s\n(peek+read, read-char, read-string on a file port; peek+read, read-string on a descriptor port; read-line)\n%s"
+                       % (case["pre"], len(case["chars"]), case["post"], case["chars"], r.body.strip()[:400], prog)), "ok"
+    return None, "ok"
+
+
+def gen_port_chunk(rng, idx):
+    base = rng.choice([4092, 4092, 4096, 8184, 8192, 1024, 128, 12276])
+    pre = max(0, base - rng.randrange(0, 6))
+    chars = [rng.choice([0xE9, 0x3BB, 0x7FF, 0x800, 0x20AC, 0xFFFD, 0x10000, 0x1F600, 0x10FFFF, 0x61]) for _ in range(rng.choice([1, 2, 3, 6]))]
+    return {"port_chunk": True, "path": "/var/tmp/c12-%d-%d.txt" % (os.getpid(), idx), "pre": pre, "chars": chars, "post": rng.choice([0, 1, 5, 5000]),
+            "n": rng.choice([1, 7, 1000, 4096, 5000]), "readline": True}
+
+
+def readline_cut_possible(case):
+    """the text is longer than read-line's 8191-byte buffer and a multi-byte character may sit on that boundary"""
+    nbytes = case["pre"] + sum(len(chr(c).encode("utf-8")) for c in case["chars"]) + case["post"]
+    return nbytes >= 8191 and case["pre"] <= 8191 and any(c > 127 for c in case["chars"])
+
+
 def shards(tier, seed, nshards, known):
     return [{"tier": tier, "seed": seed, "shard": i, "nshards": nshards, "known": known} for i in range(nshards)]
 
@@ -367,13 +436,37 @@ def run_shard(spec):
 
     E.hypothesis_search(st.data(), test, E.subseed(spec["seed"], "C12h", spec["shard"]), (500 if variant == "plain" else 200) if quick else 30000, res,
                         to_case=lambda d_: last.get("case"))
-    for dv in _DRV.values():
+    for i in range(40 if quick else 3000):
+        case = gen_port_chunk(rng, i)
+        if "KF-C12-read-line-cuts-character" in spec["known"] and readline_cut_possible(case):
+            case["readline"] = False
+            res.excluded["excluded_by_known_finding:read-line-cuts-character"] += 1
+        found, status = check_port_chunk(case, variant)
+        if status == "inconclusive":
+            res.inconclusive += 1
+            continue
+        res.case({"pre": case["pre"], "chars": case["chars"], "post": case["post"], "n": case["n"]}, any(c > 127 for c in case["chars"]), cls=["port-chunk"], sample=rng.random() < 0.02)
+        if found:
+            res.violation(dict(case, variant=variant), found.signature, found.detail)
+    for dv in list(_DRV.values()) + list(_FDRV.values()):
         dv.close()
     _DRV.clear()
+    _FDRV.clear()
     return res
 
 
+def matches_finding(v, f):
+    c = v.get("case") or {}
+    if f.get("id") == "KF-C12-read-line-cuts-character":
+        return bool(c.get("port_chunk")) and c.get("readline", True) and readline_cut_possible(c)
+    return False
+
+
 def replay(case):
+    if case.get("port_chunk"):
+        c = dict(case, path="/var/tmp/c12-%d-replay.txt" % os.getpid())
+        found, status = check_port_chunk(c, case.get("variant", "plain"))
+        return {"signature": found.signature, "detail": found.detail, "case": case} if found else None
     if "sweep_block" in case:
         why = sweep_block(driver("plain"), case["sweep_block"], case["sweep_block"] + 4096)
         return {"signature": "sweep/utf8", "detail": why, "case": case} if why else None
